@@ -3,6 +3,7 @@ package checks
 import (
 	"encoding/json"
 	"fmt"
+	"io"
 	"net/http"
 	"os"
 	"path/filepath"
@@ -91,10 +92,14 @@ func init() {
 		fail := false
 		net := &rig.Targets{}
 		var inflight func()
+		var midBody func() io.ReadCloser
 		net.Serve = func(req *http.Request) rig.Answer {
 			if f := inflight; f != nil {
 				inflight = nil
 				f()
+			}
+			if midBody != nil {
+				return rig.Answer{BodyReader: midBody}
 			}
 			if fail {
 				return rig.Answer{Status: 500}
@@ -225,6 +230,75 @@ func init() {
 		seq = []int{0, 0, 4, 8, 8, 2}
 		checkPayload()
 
+		// ---- (a2) per-metric statistics of a scrape stay what they were while other targets are scraped,
+		// and a payload spanning several parser blocks is counted per metric exactly -------------------
+		if c.Part == 0 {
+			idx++
+			sc2 := newSC()
+			names := map[uint64]string{1: "alpha_metric_total", 2: "beta_metric_total", 3: "gamma_metric_total"}
+			counts := map[uint64]int{1: 3, 2: 4, 3: 5}
+			ts := map[string][]*target.Target{}
+			for h := range names {
+				ts["jr0"] = append(ts["jr0"], c14Target(h, [2]int64{1, 1}))
+			}
+			if err := sc2.Update(ts); err != nil {
+				chk.Fatalf("%v", err)
+			}
+			scrape := func(h uint64, n int, name string) {
+				var sb strings.Builder
+				for i := 0; i < n; i++ {
+					fmt.Fprintf(&sb, "%s{i=\"%d\"} 1\n", name, i)
+				}
+				body, fail = []byte(sb.String()), false
+				sc2.Scrape(rig.ProxyURL("jr0", h, "http", "t:80", "/metrics", nil))
+			}
+			for round := 0; round < 12; round++ {
+				for _, h := range []uint64{1, 2, 3} {
+					if round > 0 && h == 1 {
+						continue // target 1 is scraped once, then only the others
+					}
+					scrape(h, counts[h], names[h])
+				}
+			}
+			var smp map[string]struct {
+				MetricsTotal map[string]struct {
+					Total   float64 `json:"total"`
+					Scraped float64 `json:"scraped"`
+				} `json:"metricsTotal"`
+			}
+			_ = sc2.APIGet("/api/v1/shard/samples/?with_metrics_detail=true&job=jr0", &smp)
+			r.States++
+			r.Transitions += 10
+			got := map[string]int{}
+			for k, v := range smp["jr0"].MetricsTotal {
+				got[k] = int(v.Total)
+			}
+			want := map[string]int{names[1]: 3, names[2]: 4, names[3]: 5}
+			if chk.JSON(got) != chk.JSON(want) {
+				viol("C14:per-metric:after-later-scrapes", "per-metric", fmt.Sprintf("per-metric totals %v after scraping other targets, expected %v", got, want), map[string]interface{}{"sequence": "scrape t1 once, t2 and t3 twelve times"})
+			}
+			// large payload: 3 metric names interleaved over ~200 KiB
+			var sb strings.Builder
+			per := map[string]int{}
+			for i := 0; sb.Len() < 600*1024; i++ {
+				n := []string{"big_alpha", "big_beta", "big_gamma"}[i%3]
+				fmt.Fprintf(&sb, "%s{instance=\"host-%06d\",path=\"/some/long/label/value/%06d\"} %d\n", n, i, i, i)
+				per[n]++
+			}
+			body, fail = []byte(sb.String()), false
+			_ = sc2.Update(map[string][]*target.Target{"jr0": {c14Target(9, [2]int64{1, 1})}})
+			sc2.Scrape(rig.ProxyURL("jr0", 9, "http", "t:80", "/metrics", nil))
+			_ = sc2.APIGet("/api/v1/shard/samples/?with_metrics_detail=true&job=jr0", &smp)
+			got = map[string]int{}
+			for k, v := range smp["jr0"].MetricsTotal {
+				got[k] = int(v.Total)
+			}
+			r.States++
+			r.Transitions++
+			if chk.JSON(got) != chk.JSON(per) {
+				viol("C14:per-metric:large-payload", "per-metric", fmt.Sprintf("per-metric totals of a 600 KiB payload: %d keys %v, expected %v", len(got), truncMap(got), per), map[string]interface{}{"payload": "600 KiB, 3 metric names interleaved"})
+			}
+		}
 		// ---- (b) result sequences for two targets, interleaved with updates ---------------------
 		type ev struct {
 			Kind string `json:"kind"` // s = scrape, u = update
@@ -241,6 +315,8 @@ func init() {
 		alpha = append(alpha, ev{Kind: "u", U: 0}, ev{Kind: "u", U: 1}, ev{Kind: "u", U: 2})
 		// a targets update arriving while a scrape is in flight ("sd")
 		alpha = append(alpha, ev{Kind: "sd", H: 1, N: 5, U: 0}, ev{Kind: "sd", H: 2, N: 5, U: 0}, ev{Kind: "sd", H: 2, N: 2, U: 1})
+		// a scrape whose body breaks off after some complete samples ("fm": N samples arrive, then the connection dies)
+		alpha = append(alpha, ev{Kind: "fm", H: 1, N: 2}, ev{Kind: "fm", H: 2, N: 1})
 		maxEv := 4
 		if c.Thorough() {
 			maxEv = 5
@@ -359,6 +435,14 @@ func init() {
 				if !fail {
 					body = rig.Payload(e.N)
 				}
+				if e.Kind == "fm" {
+					full := rig.Payload(e.N + 6)
+					cut := len(rig.Payload(e.N)) + 3 // inside the sample after the N-th
+					midBody = func() io.ReadCloser { return &breakReader{data: full, cut: cut} }
+					sc.Scrape(rig.ProxyURL("jr0", e.H, "http", "t:80", "/metrics", nil))
+					midBody = nil
+					continue // a failed scrape changes no series figure
+				}
 				if e.Kind == "sd" {
 					u := e.U
 					inflight = func() { realUpd(u) }
@@ -452,4 +536,19 @@ func init() {
 		rec2()
 		r.Nontrivial += r.States / 2
 	})
+}
+
+func truncMap(m map[string]int) map[string]int {
+	out := map[string]int{}
+	for k, v := range m {
+		if len(out) >= 6 {
+			break
+		}
+		kk := k
+		if len(kk) > 40 {
+			kk = kk[:40]
+		}
+		out[kk] = v
+	}
+	return out
 }
